@@ -3,7 +3,7 @@
    get_kernel_address, guess_kernel_base: translated from /repo's C text on every run). *)
 From Coq Require Import ZArith List Bool Sorting.Sorted Sorting.Permutation.
 Import ListNotations.
-Require Import UV.Gen.Kernels UV.C10.Model UV.C10.Proofs UV.C10.Sessions UV.C10.SymCodec UV.C10.Dlopen.
+Require Import UV.Gen.Kernels UV.C10.Model UV.C10.Proofs UV.C10.Sessions UV.C10.SymCodec UV.C10.Dlopen UV.C10.Plt.
 Local Open Scope Z_scope.
 
 (* ---------------------------------------------------------------- range lookup *)
@@ -214,6 +214,48 @@ Theorem C10_late_timestamp_refuted :
   spec_find tab_plugin (4360 - 4096) = Some (mkSym 256 64 84 [105;110;105;116]).
 Proof. exact late_timestamp_refuted. Qed.
 Print Assumptions C10_late_timestamp_refuted.
+
+(* ---------------------------------------------------------------- PLT entries of an ELF file *)
+(* load_elf_dynsymtab / load_dyn_symbol (x86_64; the canonical-address test and both address
+   expressions are generated from the C text).  For every file whose relocations are named and
+   whose canonical PLT addresses (st_value <> 0, SHN_UNDEF) are the addresses of their own PLT
+   entries [rels_ok]: with SYMTAB_FL_ADJ_OFFSET (record, analysis) EVERY PLT entry's table address
+   is its link-time address minus the first PT_LOAD address = run-time address minus module base;
+   PIE (vaddr0 = 0) or non-PIE, with or without .plt.sec, canonical entries anywhere in the list *)
+Theorem C10_plt_table_relative : forall e,
+  rels_ok e 0 (ep_rels e) ->
+  0 <= ep_vaddr0 e <= plt_slot e 0 - PLT_ENTSIZE ->
+  plt_slot e (length (ep_rels e)) - ep_vaddr0 e < W64 ->
+  map s_addr (load_dyn_syms (plt_offset true 0 e) (plt_prev0 (plt_offset true 0 e) e) (ep_rels e)) =
+  map (fun j => plt_slot e j - ep_vaddr0 e) (seq 0 (length (ep_rels e))).
+Proof. exact plt_table_relative. Qed.
+Print Assumptions C10_plt_table_relative.
+
+(* ... and that list is the final (sorted) table, in relocation order *)
+Theorem C10_plt_table_is_sorted : forall e,
+  rels_ok e 0 (ep_rels e) ->
+  0 <= ep_vaddr0 e <= plt_slot e 0 - PLT_ENTSIZE ->
+  plt_slot e (length (ep_rels e)) - ep_vaddr0 e < W64 ->
+  load_elf_dynsymtab true 0 e = load_dyn_syms (plt_offset true 0 e) (plt_prev0 (plt_offset true 0 e) e) (ep_rels e).
+Proof. exact plt_table_sorted. Qed.
+Print Assumptions C10_plt_table_is_sorted.
+
+(* libmcount at run time (no flag, offset = load base): run-time addresses *)
+Theorem C10_plt_table_runtime : forall e base,
+  rels_ok e 0 (ep_rels e) ->
+  0 <= base -> PLT_ENTSIZE <= plt_slot e 0 ->
+  plt_slot e (length (ep_rels e)) + base < W64 ->
+  map s_addr (load_dyn_syms (plt_offset false base e) (plt_prev0 (plt_offset false base e) e) (ep_rels e)) =
+  map (fun j => plt_slot e j + base) (seq 0 (length (ep_rels e))).
+Proof. exact plt_table_runtime. Qed.
+Print Assumptions C10_plt_table_runtime.
+
+(* entry k carries the name of relocation k, size 16, type 'P' *)
+Theorem C10_plt_table_names : forall offset rels prev, (forall r, In r rels -> dr_name r <> []) ->
+  map s_name (load_dyn_syms offset prev rels) = map dr_name rels /\
+  Forall (fun s => s_size s = PLT_ENTSIZE /\ s_type s = K_ST_PLT_FUNC) (load_dyn_syms offset prev rels).
+Proof. exact load_dyn_syms_names. Qed.
+Print Assumptions C10_plt_table_names.
 
 (* ---------------------------------------------------------------- .sym files *)
 (* what save_module_symbol_file writes is read back by load_module_symbol_file as the same
